@@ -31,7 +31,12 @@ func (f *Formatter) formatAclDeclaration(decl *ast.AclDeclaration) *Declaration 
 		}
 		buf.WriteString(`"` + cidr.IP.Value + `"`)
 		if cidr.Mask != nil {
-			buf.WriteString("/" + cidr.Mask.String())
+			buf.WriteString("/")
+			// keep a space before a comment, otherwise "/" + "/* comment */" starts a line comment
+			if len(cidr.Mask.Leading) > 0 {
+				buf.WriteString(" ")
+			}
+			buf.WriteString(cidr.Mask.String())
 		}
 		if v := f.formatComment(cidr.IP.Trailing, " ", 0); v != "" {
 			buf.WriteString(" " + v)
